@@ -666,8 +666,9 @@ def _run_property(args, prop, tier, work, outdir, t0):
         for i in inconclusive:
             log('INCONCLUSIVE: ' + i)
         return 2
-    nob = sum(len(r.obligations) for r in results)
-    log('OK property=%s tier=%s: %d obligations discharged over %d check runs in %.0fs' % (prop, tier, nob, len(results), time.time() - t0))
+    nob = sum(len(r.obligations) for r in results if not r.bounded)
+    nbd = sum(len(r.obligations) for r in results if r.bounded)
+    log('OK property=%s tier=%s: %d obligations discharged (proof)%s over %d check runs in %.0fs' % (prop, tier, nob, (', %d more hold in bounded checks (not counted as proved)' % nbd) if nbd else '', len(results), time.time() - t0))
     return 0
 
 
